@@ -3,6 +3,7 @@ package codecaudio
 import (
 	"fmt"
 	"math/rand/v2"
+	"reflect"
 
 	"github.com/bluenviron/mediacommon/v2/pkg/codecs/mpeg4audio"
 	"github.com/pion/rtp"
@@ -35,6 +36,20 @@ func newM4Dec(sl, il, dl int) cu.Decoder {
 	d := &rtpmpeg4audio.Decoder{SizeLength: sl, IndexLength: il, IndexDeltaLength: dl}
 	d.Init()
 	return m4Dec{d}
+}
+
+// m4Cause: a resynchronisation failure while the real decoder is in (sticky) ADTS mode has its own
+// key: the decoder sniffed something that was not the start of a stream (known finding).
+func m4Cause(dec cu.Decoder, key string) string {
+	md, ok := dec.(m4Dec)
+	if !ok || key != "resync" {
+		return key
+	}
+	f := reflect.ValueOf(md.d).Elem().FieldByName("adtsMode")
+	if f.IsValid() && f.Bool() {
+		return "resync-adts-sniff"
+	}
+	return key
 }
 
 // m4Params derives the bit lengths from the SSRC (replayable: the SSRC is part of EncParams).
